@@ -21,10 +21,17 @@ enum Pool<'a> {
 }
 
 fn by_name_history(rng: &mut Rng, table: &Table, st: &mut Stats) {
-    let gcfg = GenCfg { lit_num: 4, un_num: 1, ..GenCfg::default() };
+    let mut gcfg = GenCfg { lit_num: 4, un_num: 1, ..GenCfg::default() };
+    let many = rng.chance(1, 4);
+    if many {
+        // unions beyond the inline capacity of 16 variable names
+        gcfg.vars = (0..26).map(|k| format!("{}{}", ["v", "a", "w", "Z"][k % 4], k)).collect();
+        gcfg.lit_num = 1;
+        st.bump("by_name_histories_with_many_variables");
+    }
     let seeds: Vec<(Tree, String)> = (0..6)
         .map(|_| {
-            let k = rng.range(1, 5);
+            let k = if many { rng.range(6, 14) } else { rng.range(1, 5) };
             let t = gen_tree(rng, table, k, &gcfg);
             let rc = RenderCfg::random(rng);
             let s = render(&t, table, rng, &rc);
